@@ -90,7 +90,7 @@ Proof.
   intros H. destruct o; cbn [c08_step].
   - apply derive_inv; [apply rank_lt_fuel|exact H].
   - apply derive_inv; [apply rank_lt_fuel|exact H].
-  - destruct (c08_present s V_TOPO); [exact H|constructor; [reflexivity|exact H]].
+  - exact H.
   - exact H.
 Qed.
 
@@ -117,7 +117,6 @@ Theorem run_present_mono ops : forall s v, c08_present s v = true -> c08_present
 Proof.
   induction ops as [|o ops IH]; intros s v H; simpl; [exact H|]. apply IH.
   destruct o; cbn [c08_step]; try exact H; try (apply derive_present_mono; exact H).
-  destruct (c08_present s V_TOPO); [exact H|apply present_cons; exact H].
 Qed.
 
 (* ================= (2) caches ================= *)
@@ -191,5 +190,5 @@ Proof. vm_compute. repeat split. Qed.
 Example c08_ex :
   AllCanon [] /\
   c08_names (c08_run [] [OpGet V_FF; OpAreas; OpEncodeUgrid; OpGet V_ECEN]) =
-    [V_ECEN; V_NXYZ; V_TOPO; V_FF; V_EF; V_NPF; V_FE; V_EN].
+    [V_ECEN; V_NXYZ; V_FF; V_EF; V_NPF; V_FE; V_EN].
 Proof. split; [constructor|vm_compute; reflexivity]. Qed.
